@@ -192,16 +192,16 @@ theorem eq_of_length_one {α : Type} {l : List α} (h : l.length = 1) {x y : α}
     table as they are when the section starts** — and there is one only when the TIMING period has elapsed -/
 theorem ticks_timing (cfg : Cfg) (s : State) :
     ∀ p ∈ dataSends isTimingB (ticks cfg s).out, p ∈ dataSends isTimingB s.out ∨
-      ((cfg.timing && decide (s.now - s.tTiming > 900)) = true ∧
+      ((cfg.timing && decide (s.now - s.tTiming > cfg.pTiming)) = true ∧
         p.2.body = .timing (timingEntries cfg s.counts) (pidEntries s.mods)) := by
   unfold ticks
   dsimp only
-  have h1 : ∀ p ∈ dataSends isTimingB (if (cfg.timing && decide (s.now - s.tTiming > 900)) = true then
+  have h1 : ∀ p ∈ dataSends isTimingB (if (cfg.timing && decide (s.now - s.tTiming > cfg.pTiming)) = true then
       { sendTiming cfg s with tTiming := s.now } else s).out, p ∈ dataSends isTimingB s.out ∨
-      ((cfg.timing && decide (s.now - s.tTiming > 900)) = true ∧
+      ((cfg.timing && decide (s.now - s.tTiming > cfg.pTiming)) = true ∧
         p.2.body = .timing (timingEntries cfg s.counts) (pidEntries s.mods)) := by
     intro p hp
-    by_cases ht : (cfg.timing && decide (s.now - s.tTiming > 900)) = true
+    by_cases ht : (cfg.timing && decide (s.now - s.tTiming > cfg.pTiming)) = true
     · simp only [ht, if_true] at hp
       unfold sendTiming at hp
       rcases fwdTop_sends_self cfg (tag_timing cfg) ({ s with counts := [], inTraffic := true } : State)
@@ -210,9 +210,9 @@ theorem ticks_timing (cfg : Cfg) (s : State) :
       · exact Or.inr ⟨ht, by rw [h]; rfl⟩
     · simp only [ht, Bool.false_eq_true, if_false] at hp
       exact Or.inl hp
-  generalize (if (cfg.timing && decide (s.now - s.tTiming > 900)) = true then
+  generalize (if (cfg.timing && decide (s.now - s.tTiming > cfg.pTiming)) = true then
       { sendTiming cfg s with tTiming := s.now } else s) = s1 at h1 ⊢
-  have h2 : QE isTimingB s1 (if s1.now - s1.tTraffic > 1000 then sendTraffic cfg s1 else s1) := by
+  have h2 : QE isTimingB s1 (if s1.now - s1.tTraffic > cfg.pTraffic then sendTraffic cfg s1 else s1) := by
     split
     · unfold sendTraffic
       refine (((QE_same (s' := { s1 with inTraffic := true }) rfl).trans (logAt_QI cfg (tag_timing cfg) ctlIO_timing 10 _)).trans
@@ -222,8 +222,8 @@ theorem ticks_timing (cfg : Cfg) (s : State) :
       obtain ⟨q, _, rfl⟩ := List.mem_map.mp hf
       rfl
     · exact QE.refl _ s1
-  generalize (if s1.now - s1.tTraffic > 1000 then sendTraffic cfg s1 else s1) = s2 at h2 ⊢
-  have h3 : QE isTimingB s2 (if s2.now - s2.tInfo > 5000 then sendActive cfg s2 else s2) := by
+  generalize (if s1.now - s1.tTraffic > cfg.pTraffic then sendTraffic cfg s1 else s1) = s2 at h2 ⊢
+  have h3 : QE isTimingB s2 (if s2.now - s2.tInfo > cfg.pInfo then sendActive cfg s2 else s2) := by
     split
     · unfold sendActive
       exact (((logAt_QI cfg (tag_timing cfg) ctlIO_timing 10 s2).trans (infoAll_QI cfg (tag_timing cfg) ctlIO_timing _ _)).trans
@@ -346,7 +346,7 @@ include ok hfuel
     the abstract state as it is: no `"C18"` error is added -/
 theorem timing_round {x : State} {a : A} (h : RInv cfg x a) (hna : MgrNotAll cfg) (hord : OrderGood cfg) (r : Round)
     (hr : RoundOK r) (hnw : NoWrap cfg (stepR cfg x r).hist) :
-    (if (cfg.timing && decide ((roundPre cfg a r (stepR cfg x r).out).now - (roundPre cfg a r (stepR cfg x r).out).tTiming > 900)) = true
+    (if (cfg.timing && decide ((roundPre cfg a r (stepR cfg x r).out).now - (roundPre cfg a r (stepR cfg x r).out).tTiming > cfg.pTiming)) = true
       then checkTiming cfg (roundPre cfg a r (stepR cfg x r).out) (lastEvs (stepR cfg x r).out)
       else (roundPre cfg a r (stepR cfg x r).out).chk
         (!(sends (lastEvs (stepR cfg x r).out)).any (fun p => match p.2.2.body with | .timing .. => true | _ => false)) "C18"
@@ -363,7 +363,7 @@ theorem timing_round {x : State} {a : A} (h : RInv cfg x a) (hna : MgrNotAll cfg
   rw [hP.last, fnow, ftT]
   -- every TIMING frame of the last stretch is the report of this round's tick
   have hsrc : ∀ p ∈ sends (lastIO ++ T), isTimingB p.2.2.body = true →
-      (cfg.timing && decide (x2.now - x2.tTiming > 900)) = true ∧
+      (cfg.timing && decide (x2.now - x2.tTiming > cfg.pTiming)) = true ∧
         p.2.2.body = .timing (timingEntries cfg x2.counts) (pidEntries x2.mods) := by
     intro p hp hb
     have h1 := mem_dataSends_of_sends hp hb
@@ -376,7 +376,7 @@ theorem timing_round {x : State} {a : A} (h : RInv cfg x a) (hna : MgrNotAll cfg
     · exact h3
   have hgrow : ∃ e, (stepR cfg x r).hist = e ++ x2.hist := by rw [hP.step]; exact ticks_grows cfg x2
   obtain ⟨eg, heg⟩ := hgrow
-  by_cases ht : (cfg.timing && decide (x2.now - x2.tTiming > 900)) = true
+  by_cases ht : (cfg.timing && decide (x2.now - x2.tTiming > cfg.pTiming)) = true
   · simp only [ht, if_true]
     apply checkTiming_fix
     intro p hp cs ps hb
